@@ -244,6 +244,18 @@ def _rest(ck, repo):
         g = fv.one_call("gather")
         ck.ob("execute_fields: gather(return_exceptions=True) so one failing sibling does not abandon the others",
               arg_text(g, None, "return_exceptions") == "True", f, g, construct="parent:return-exceptions")
+        operation_catch(ck, repo)
+
+    with ck.rule("R7"):
+        _error_records(ck, repo)
+
+    with ck.rule("R8"):
+        _handler_census(ck, repo)
+
+
+def operation_catch(ck, repo):
+    """A failure escaping the root executor is recorded and nulls data (shared with C09.R3)."""
+    if True:
         o = repo.func(EXECUTE, "execute_operation")
         ov = FuncView(o)
         for nm in ("execute_fields_serially", "execute_fields"):
@@ -257,12 +269,6 @@ def _rest(ck, repo):
                 ret = [s for s in body if isinstance(s, ast.Return)]
                 ok = len(rec) == 1 and len(ret) == 1 and unparse(ret[0].value) == "None" and not any(isinstance(s, ast.Raise) for s in ast.walk(h))
             ck.ob(f"execute_operation: a failure escaping {nm} is recorded and turns data into null", ok, o, c, construct=f"operation:catch:{nm}")
-
-    with ck.rule("R7"):
-        _error_records(ck, repo)
-
-    with ck.rule("R8"):
-        _handler_census(ck, repo)
 
 
 def _error_records(ck, repo):
